@@ -178,6 +178,26 @@ def readFloat (data : List UInt8) : Option (Nat × Nat) :=
     if ovf then none else some (bits, data.length - rest.length)
   | none => none
 
+/-! ## tokens -/
+
+/-- the fixed JSON token table: 0 invalid, 1 null, 2 string, 3 number, 4 true, 5 false, 6 `{`, 7 `}`, 8 `[`, 9 `]`, 10 `,`, 11 `:` -/
+def tokenType (b : UInt8) : Nat :=
+  if b == 110 then 1 else if b == 34 then 2 else if b == 45 || isDigit b then 3
+  else if b == 116 then 4 else if b == 102 then 5 else if b == 123 then 6 else if b == 125 then 7
+  else if b == 91 then 8 else if b == 93 then 9 else if b == 44 then 10 else if b == 58 then 11 else 0
+
+/-- `NextTokenType`: `none` = end of input; else (type, index + 1) of the first non-whitespace byte -/
+def nextTokenType (data : List UInt8) : Option (Nat × Nat) :=
+  match skipWs data with
+  | [] => none
+  | b :: rest => some (tokenType b, data.length - rest.length)
+
+/-- `NextToken`: `none` = end of input; else (byte, valid?, index + 1) -/
+def nextToken (data : List UInt8) : Option (UInt8 × Bool × Nat) :=
+  match skipWs data with
+  | [] => none
+  | b :: rest => some (b, tokenType b != 0, data.length - rest.length)
+
 /-! ## traversal -/
 
 structure Member where
